@@ -104,6 +104,7 @@ def history_unit(hists, idx):
         for hi, hist in enumerate(hists):
             pre, muts, mid, post = hist[:4]
             fresh_first = len(hist) > 4 and hist[4]
+            mode = hist[5] if len(hist) > 5 else None
             tag = "h%d" % hi
             m = base_spec().build()
             sh = Shadow()
@@ -124,8 +125,21 @@ def history_unit(hists, idx):
                 m.parameters = [vals[p] for p in sh.params]
             for f in pre:
                 getattr(m, f)(x, t)
+            original = None
+            if mode == "copy":
+                # carry on with a deep copy: the modifications are made to the copy, the original keeps its definition
+                original, vals0 = m, dict(vals)
+                m = copy.deepcopy(m)
             for k, mu in enumerate(muts):
                 M[mu](m, sh)
+                if mode == "eval_before_values" and mu in ("add_param+event", "add_param_only"):
+                    # an evaluation attempted while the new parameter has no value yet (whatever it does -- a value,
+                    # an exception -- it must not leave the evaluators unusable once the values are supplied)
+                    for f in (mid or post):
+                        try:
+                            getattr(m, f)(x, t)
+                        except Exception:
+                            pass
                 if mu in ("parameters=", "add_param+event", "add_param_only"):
                     rebind(k + 1)
                 if mu == "parameters=dict":
@@ -137,13 +151,23 @@ def history_unit(hists, idx):
             spec = sh.spec()
             fresh = spec.build()
             fresh.parameters = [vals[p] for p in sh.params]
-            label = "[%s | %s | %s | %s%s]" % (",".join(pre) or "-", ",".join(muts), ",".join(mid) or "-", ",".join(post),
-                                                " | reference model evaluated first" if fresh_first else "")
+            label = "[%s | %s | %s | %s%s%s]" % (",".join(pre) or "-", ",".join(muts), ",".join(mid) or "-", ",".join(post),
+                                                  " | reference model evaluated first" if fresh_first else "",
+                                                  {None: "", "copy": " | mutations on a deep copy", "eval_before_values": " | evaluated before the new parameter had a value"}[mode])
             env = dict(zip(sh.states, x))
             env["t"] = t
             env.update(vals)
             for f in post:
-                if fresh_first:
+                if mode is not None:
+                    try:
+                        got = np.asarray(getattr(m, f)(x, t), dtype=object)
+                    except sym.Abort:
+                        raise
+                    except Exception as e:      # noqa
+                        c.prove(False, "%s %s == fresh model with the same final definition [raised %s]" % (label, f, type(e).__name__))
+                        continue
+                    want = np.asarray(getattr(fresh, f)(x, t), dtype=object)
+                elif fresh_first:
                     # two models alive in one process: the reference is evaluated BEFORE the modified model
                     want = np.asarray(getattr(fresh, f)(x, t), dtype=object)
                     got = np.asarray(getattr(m, f)(x, t), dtype=object)
@@ -156,6 +180,12 @@ def history_unit(hists, idx):
                 c.prove(all_close(got, want, c), "%s %s == fresh model with the same final definition" % (label, f))
                 if f == "ode":
                     c.prove(all_close(got, [expr.ev(e, env) for e in spec.rhs()], c), "%s ode == oracle of the final definition" % label)
+            if original is not None:
+                env0 = dict(zip(sh.states, x))
+                env0["t"] = t
+                env0.update(vals0)
+                c.prove(all_close(np.asarray(original.ode(x, t), dtype=object), [expr.ev(e, env0) for e in base_spec().rhs()], c),
+                        "%s the model that was copied still evaluates its own definition" % label)
     return Unit("C08.histories[chunk %d: %d histories, first=%s]" % (idx, len(hists), hists[0][1]), h,
                 bounds={"histories": len(hists), "shape": "[evals] . mutate . [evals] . [mutate] . evals"},
                 program={"chunk": idx, "n": len(hists)}, n_programs=len(hists), max_paths=5)
@@ -184,6 +214,13 @@ def histories(tier):
         for f in (EVALS if tier != "quick" else EVALS[::3]):
             H.append(((f,), (a, b), (f,), (f, "ode", f)))
             H.append((tuple(EVALS), (a, b), (), tuple(EVALS)))
+    # an evaluation squeezed in between declaring a parameter and giving it a value; modifications made to a deep copy
+    for f in (EVALS if tier != "quick" else EVALS[::2]):
+        for mu in ("add_param+event", "add_param_only"):
+            H.append(((f,), (mu,), (), (f, "ode"), False, "eval_before_values"))
+        for mu in (ms if tier != "quick" else ["add_transition", "add_birth", "add_ode", "add_param+event", "add_derived+event", "parameters="]):
+            H.append(((f,), (mu,), (), (f, "ode"), False, "copy"))
+            H.append(((), (mu,), (), ("ode", f), False, "copy"))
     return H
 
 
@@ -195,7 +232,9 @@ class C08(Check):
                    "new parameter values) on a real model, each evaluator observed after the last step in both recompilation orders (evaluator "
                    "first / ode first) and in both observation orders (modified model first / reference model first -- two models alive in one "
                    "process): z3 proves that what the mutated model returns equals what a freshly constructed model with the same "
-                   "final definition returns, for all evaluation points and parameter values, and that ode equals the oracle of the final definition.")
+                   "final definition returns, for all evaluation points and parameter values, and that ode equals the oracle of the final definition.  "
+                   "Two further history shapes: an evaluation attempted between declaring a parameter and giving it a value, and modifications "
+                   "made to a deep copy (the copy must follow its own definition, the original must keep its own).")
     assumptions = ["histories longer than two mutations are not explored", "lambdify back-end"]
 
     def units(self, tier, seed):
